@@ -284,7 +284,8 @@ func (w *cfWalker) isHook(call *ast.CallExpr) bool {
 	n := w.calleeName(call)
 	n = strings.TrimPrefix(n, ".")
 	n = strings.TrimPrefix(n, "desync.")
-	return strings.HasPrefix(n, "verif") || strings.HasPrefix(n, "Verif")
+	// the hooks are unexported functions named verif<Upper…> (verifYield, verifPool, …); VerifyIndex is not one
+	return len(n) > 5 && strings.HasPrefix(n, "verif") && n[5] >= 'A' && n[5] <= 'Z'
 }
 
 // statement-position calls whose error result is of no consequence for the flow
@@ -381,6 +382,13 @@ func (w *cfWalker) assign(as *ast.AssignStmt, guard *cfCond) []*cfStmt {
 	for _, l := range as.Lhs {
 		if v := w.errVarOf(l); v != "" {
 			ev = v
+		}
+	}
+	if ev == "" && w.returnsError(name) && !cfBenign(name) {
+		// an error variable under another name: the last result of a call that returns an error
+		if id, ok := as.Lhs[len(as.Lhs)-1].(*ast.Ident); ok && id.Name != "_" {
+			ev = id.Name
+			w.errVars[ev] = true
 		}
 	}
 	if ev == "" && !w.returnsError(name) {
@@ -880,6 +888,26 @@ func (c *ctx) cmdFlowFacts() {
 	c.cmdCatFacts()
 }
 
+// cmdFuncNotWindows: the declaration of a function of cmd/desync, looked up in file-name order and not in the
+// *_windows.go variants (two files may declare the same constructor under different build constraints)
+func (c *ctx) cmdFuncNotWindows(name string) *ast.FuncDecl {
+	var files []string
+	for n := range c.cmd {
+		if !strings.HasSuffix(n, "_windows.go") {
+			files = append(files, n)
+		}
+	}
+	sort.Strings(files)
+	for _, n := range files {
+		for _, d := range c.cmd[n].Decls {
+			if fd, ok := d.(*ast.FuncDecl); ok && fd.Recv == nil && fd.Name.Name == name {
+				return fd
+			}
+		}
+	}
+	return nil
+}
+
 // main(): the signal handler, the exit status, and how every command constructor wires its run function
 func (c *ctx) cmdMainFacts() {
 	fd := c.funcDecl(c.cmd, "", "main")
@@ -989,7 +1017,7 @@ func (c *ctx) cmdMainFacts() {
 				}
 				r := reg{ctor: exprString(cc.Fun)}
 				r.gotMainCtx = len(cc.Args) >= 1 && exprString(cc.Args[0]) == ctxVar && ctxVar != ""
-				if cd := c.funcDecl(c.cmd, "", r.ctor); cd != nil && cd.Body != nil {
+				if cd := c.cmdFuncNotWindows(r.ctor); cd != nil && cd.Body != nil {
 					cp := paramOfType(cd, "context.Context")
 					walk(cd.Body, func(m ast.Node) bool {
 						kv, ok := m.(*ast.KeyValueExpr)
